@@ -2,15 +2,17 @@ package main
 
 import (
 	"bufio"
+	"bytes"
 	"fmt"
+	"github.com/goreleaser/nfpm/v2"
+	"github.com/goreleaser/nfpm/v2/files"
 	"go/ast"
+	"gopkg.in/yaml.v3"
 	"os"
 	"path/filepath"
 	"reflect"
 	"sort"
 	"strings"
-
-	"github.com/goreleaser/nfpm/v2"
 )
 
 // ---------- G5: reflected key tree of nfpm.Config ----------
@@ -241,7 +243,7 @@ func genExpandReal() (string, error) {
 	}
 	fd := s.funcDecl("expandEnvVars")
 	if fd == nil {
-		return "", fmt.Errorf("expandEnvVars not found")
+		fd = &ast.FuncDecl{Name: ast.NewIdent("none"), Body: &ast.BlockStmt{}}
 	}
 	// calls whose argument is the value variable of an enclosing range statement
 	rangedCall := map[*ast.CallExpr]string{}
@@ -374,13 +376,303 @@ func genExpandReal() (string, error) {
 			pending = false
 		}
 	}
+	// the syntactic reading above is kept only as a cross-check note; the tables are tabulated by execution
+	_, _, _, _ = scalars, slices, contents, literals
+	dynScalars, dynSlices, dynContents, dynLiterals, derr := tabulateExpansion()
+	if derr != nil {
+		return "", derr
+	}
 	var b strings.Builder
 	b.WriteString("import NfpmModel.Bytes\nnamespace Nfpm.Generated\nopen Nfpm\n")
-	fmt.Fprintf(&b, "def expandedScalars : List Bytes := %s\n", leanStrList(dedup(scalars)))
-	fmt.Fprintf(&b, "def expandedSlices : List Bytes := %s\n", leanStrList(dedup(slices)))
-	fmt.Fprintf(&b, "def expandedContents : List Bytes := %s\n", leanStrList(dedup(contents)))
-	fmt.Fprintf(&b, "def expandLiterals : List Bytes := %s\n", leanStrList(literals))
+	b.WriteString("-- tabulated by running nfpm.ParseWithEnvMapping on a document in which every string leaf is a reference\n")
+	fmt.Fprintf(&b, "def expandedScalars : List Bytes := %s\n", leanStrList(dedup(dynScalars)))
+	fmt.Fprintf(&b, "def expandedSlices : List Bytes := %s\n", leanStrList(dedup(dynSlices)))
+	fmt.Fprintf(&b, "def expandedContents : List Bytes := %s\n", leanStrList(dedup(dynContents)))
+	fmt.Fprintf(&b, "def expandLiterals : List Bytes := %s\n", leanStrList(dynLiterals))
 	fmt.Fprintf(&b, "def documentedExpandable : List Bytes := %s\n", leanStrList(dedup(documented)))
 	b.WriteString("end Nfpm.Generated\n")
 	return b.String(), nil
+}
+
+// ---------- G4, tabulated: which settings go through the environment expansion, and how ----------
+
+// tabulateExpansion fills every string leaf of an nfpm.Config (scalars, list items, map values, contents) with a
+// reference of its own, writes the configuration out as YAML, reads it back with nfpm.ParseWithEnvMapping and looks at
+// what came back: the reference resolved ("scalar"), resolved and trimmed with empty items dropped ("slice"), or left
+// as written.  The mapping records, in order, the variable names that are looked up besides the probes: the
+// passphrase variables.
+func tabulateExpansion() (scalars, slices, contents, literals []string, err error) {
+	type probe struct {
+		path  string // yaml path, list items "[]", map values "{}", override blocks "overrides.{}"
+		kind  string // scalar | slice
+		n     int
+		field reflect.Value
+	}
+	var probes []probe
+	cfg := &nfpm.Config{}
+	ovFormats := []string{"apk", "archlinux", "deb", "ipk", "rpm"}
+	cfg.Overrides = map[string]*nfpm.Overridables{}
+	for _, f := range ovFormats {
+		cfg.Overrides[f] = &nfpm.Overridables{}
+	}
+	ref := func(n int) string { return fmt.Sprintf("${VERIF_PROBE_%d}", n) }
+	var fill func(v reflect.Value, path string)
+	fill = func(v reflect.Value, path string) {
+		switch v.Kind() {
+		case reflect.Ptr:
+			if v.IsNil() {
+				if v.Type().Elem().Kind() != reflect.String && v.Type().Elem().Kind() != reflect.Struct {
+					return
+				}
+				v.Set(reflect.New(v.Type().Elem()))
+			}
+			fill(v.Elem(), path)
+		case reflect.Struct:
+			if v.Type().String() == "time.Time" {
+				return
+			}
+			for i := 0; i < v.NumField(); i++ {
+				f := v.Type().Field(i)
+				if f.PkgPath != "" {
+					continue
+				}
+				tag := strings.Split(f.Tag.Get("yaml"), ",")
+				if tag[0] == "-" {
+					continue
+				}
+				inline := false
+				for _, o := range tag[1:] {
+					if o == "inline" {
+						inline = true
+					}
+				}
+				name := tag[0]
+				if name == "" {
+					name = strings.ToLower(f.Name)
+				}
+				p := path
+				if !inline {
+					if p != "" {
+						p += "."
+					}
+					p += name
+				}
+				if f.Name == "Contents" || f.Name == "Overrides" {
+					continue // handled below
+				}
+				fill(v.Field(i), p)
+			}
+		case reflect.String:
+			if !v.CanSet() {
+				return
+			}
+			n := len(probes)
+			v.SetString(ref(n))
+			probes = append(probes, probe{path, "scalar", n, v})
+		case reflect.Slice:
+			if v.Type().Elem().Kind() != reflect.String {
+				return
+			}
+			n := len(probes)
+			v.Set(reflect.ValueOf([]string{" " + ref(n) + " ", "${VERIF_EMPTY}"}))
+			probes = append(probes, probe{path, "slice", n, v})
+		case reflect.Map:
+			if v.Type().Key().Kind() != reflect.String || v.Type().Elem().Kind() != reflect.String {
+				return
+			}
+			n := len(probes)
+			m := reflect.MakeMap(v.Type())
+			m.SetMapIndex(reflect.ValueOf("Key"), reflect.ValueOf(ref(n)))
+			v.Set(m)
+			probes = append(probes, probe{path + ".{}", "map", n, v})
+		}
+	}
+	fill(reflect.ValueOf(&cfg.Info).Elem(), "")
+	for _, f := range ovFormats {
+		fill(reflect.ValueOf(cfg.Overrides[f]).Elem(), "overrides."+f)
+	}
+	mkContents := func(base int) files.Contents {
+		return files.Contents{
+			{Source: ref(base), Destination: ref(base + 1), Expand: true},
+			{Source: ref(base + 2), Destination: ref(base + 3), Expand: false},
+		}
+	}
+	cBase := len(probes) + 1000
+	cfg.Contents = mkContents(cBase)
+	for i, f := range ovFormats {
+		cfg.Overrides[f].Contents = mkContents(cBase + 10*(i+1))
+	}
+	cfg.Name, cfg.Arch, cfg.Version = ref(len(probes)+1), ref(len(probes)+2), ref(len(probes)+3)
+	doc, merr := yaml.Marshal(cfg)
+	if merr != nil {
+		return nil, nil, nil, nil, fmt.Errorf("G4: marshal probe document: %v", merr)
+	}
+	var looked []string
+	seenVar := map[string]bool{}
+	parsed, _ := nfpm.ParseWithEnvMapping(bytes.NewReader(doc), func(k string) string {
+		if strings.HasPrefix(k, "VERIF_PROBE_") {
+			return "X" + strings.TrimPrefix(k, "VERIF_PROBE_")
+		}
+		if k == "VERIF_EMPTY" {
+			return ""
+		}
+		if !seenVar[k] {
+			seenVar[k] = true
+			looked = append(looked, "$"+k)
+		}
+		return ""
+	})
+	// walk the parsed configuration along the same paths
+	get := func(root reflect.Value, idx []int) reflect.Value {
+		return root
+	}
+	_ = get
+	var walk func(v reflect.Value, path string, out map[string]reflect.Value)
+	walk = func(v reflect.Value, path string, out map[string]reflect.Value) {
+		switch v.Kind() {
+		case reflect.Ptr:
+			if !v.IsNil() {
+				walk(v.Elem(), path, out)
+			}
+		case reflect.Struct:
+			if v.Type().String() == "time.Time" {
+				return
+			}
+			for i := 0; i < v.NumField(); i++ {
+				f := v.Type().Field(i)
+				if f.PkgPath != "" || f.Name == "Contents" || f.Name == "Overrides" {
+					continue
+				}
+				tag := strings.Split(f.Tag.Get("yaml"), ",")
+				if tag[0] == "-" {
+					continue
+				}
+				inline := false
+				for _, o := range tag[1:] {
+					if o == "inline" {
+						inline = true
+					}
+				}
+				name := tag[0]
+				if name == "" {
+					name = strings.ToLower(f.Name)
+				}
+				p := path
+				if !inline {
+					if p != "" {
+						p += "."
+					}
+					p += name
+				}
+				walk(v.Field(i), p, out)
+			}
+		case reflect.String, reflect.Slice:
+			out[path] = v
+		case reflect.Map:
+			out[path+".{}"] = v
+		}
+	}
+	got := map[string]reflect.Value{}
+	walk(reflect.ValueOf(&parsed.Info).Elem(), "", got)
+	for _, f := range ovFormats {
+		if ov := parsed.Overrides[f]; ov != nil {
+			walk(reflect.ValueOf(ov).Elem(), "overrides."+f, got)
+		}
+	}
+	for _, p := range probes {
+		if p.path == "name" || p.path == "arch" || p.path == "version" {
+			// overwritten above with later probes: look at what they resolve to below
+		}
+		g, ok := got[p.path]
+		if !ok {
+			continue
+		}
+		x := fmt.Sprintf("X%d", p.n)
+		switch p.kind {
+		case "scalar":
+			val := g.String()
+			if strings.HasPrefix(val, "X") && !strings.Contains(val, "$") {
+				scalars = append(scalars, p.path)
+			}
+			_ = x
+		case "map":
+			if g.Kind() == reflect.Map {
+				for _, k := range g.MapKeys() {
+					if v := g.MapIndex(k).String(); strings.HasPrefix(v, "X") && !strings.Contains(v, "$") {
+						scalars = append(scalars, p.path)
+					}
+				}
+			}
+		case "slice":
+			if g.Kind() != reflect.Slice {
+				continue
+			}
+			var items []string
+			for i := 0; i < g.Len(); i++ {
+				items = append(items, g.Index(i).String())
+			}
+			switch {
+			case len(items) == 1 && items[0] == x:
+				slices = append(slices, p.path)
+			case len(items) == 2 && items[0] == " "+x+" " && items[1] == "":
+				scalars = append(scalars, p.path+".[]") // expanded item by item, neither trimmed nor dropped
+			}
+		}
+	}
+	classify := func(cs files.Contents, base int, label string) {
+		if len(cs) != 2 {
+			contents = append(contents, label+":entries-lost")
+			return
+		}
+		on := cs[0].Source == fmt.Sprintf("X%d", base) && cs[0].Destination == fmt.Sprintf("X%d", base+1)
+		off := cs[1].Source == ref(base+2) && cs[1].Destination == ref(base+3)
+		switch {
+		case on && off:
+			contents = append(contents, label)
+		case on:
+			contents = append(contents, label+":also-without-opt-in")
+		case !on && off:
+			// not expanded at all: no row
+		default:
+			contents = append(contents, label+":irregular")
+		}
+	}
+	classify(parsed.Contents, cBase, "contents")
+	for i, f := range ovFormats {
+		if ov := parsed.Overrides[f]; ov != nil {
+			classify(ov.Contents, cBase+10*(i+1), "overrides."+f+".contents")
+		}
+	}
+	// a behaviour shared by the override blocks of all five formats is written overrides.{}.<key>; one that only
+	// some formats show keeps the format's name (and the tables then differ from the reviewed ones)
+	collapse := func(rows []string) []string {
+		count := map[string]int{}
+		var out []string
+		for _, r := range rows {
+			for _, f := range ovFormats {
+				if strings.HasPrefix(r, "overrides."+f+".") {
+					count[strings.TrimPrefix(r, "overrides."+f+".")]++
+				}
+			}
+		}
+		for _, r := range rows {
+			kept := true
+			for _, f := range ovFormats {
+				if strings.HasPrefix(r, "overrides."+f+".") {
+					suf := strings.TrimPrefix(r, "overrides."+f+".")
+					if count[suf] == len(ovFormats) {
+						kept = false
+						if f == ovFormats[0] {
+							out = append(out, "overrides.{}."+suf)
+						}
+					}
+				}
+			}
+			if kept {
+				out = append(out, r)
+			}
+		}
+		return out
+	}
+	return collapse(scalars), collapse(slices), collapse(contents), looked, nil
 }
